@@ -33,6 +33,8 @@ class FeatureIDEReader(TextToModel):
     TAG_OR = "or"
     TAG_ALT = "alt"
 
+    TAGS_OF_FEATURES = (TAG_FEATURE, TAG_AND, TAG_OR, TAG_ALT)
+
     # Constraints tags
     TAG_RULE = "rule"
     TAG_VAR = "var"
@@ -85,6 +87,10 @@ class FeatureIDEReader(TextToModel):
 
         for child in root_tree:
             if child.tag not in FeatureIDEReader.TAGS_WITHOUT_CONTENT:
+                if child.tag not in FeatureIDEReader.TAGS_OF_FEATURES:
+                    # e.g. the attributes of the extended format: not a feature of the model
+                    raise FlamaException(
+                        f"Unsupported element in the structure of a FeatureIDE model: {child.tag}")
                 is_abstract = (
                     FeatureIDEReader.ATTRIB_ABSTRACT in child.attrib
                     and child.attrib[FeatureIDEReader.ATTRIB_ABSTRACT] == "true"
